@@ -2,7 +2,7 @@
 From IV Require Import Base.Bytes Model.StoreSpec Model.Rest Proofs.RestClient.
 Theorem api_reflects_store_slash_refuted :
   no_enc_slash (rq_path rq_slash) = false /\
-  exists out, spec_serve mfa_id cfg0 [] st_one rq_slash = Some out /\ serve mfa_id cfg0 [] st_one rq_slash <> out
-              /\ fst (snd out) = S200 /\ fst (snd (serve mfa_id cfg0 [] st_one rq_slash)) = S404.
+  exists out, spec_serve mfa_id cfg0 src_all [] st_one rq_slash = Some out /\ serve mfa_id cfg0 src_all [] st_one rq_slash <> out
+              /\ fst (snd out) = S200 /\ fst (snd (serve mfa_id cfg0 src_all [] st_one rq_slash)) = S404.
 Proof. exact api_slash_witness. Qed.
 Print Assumptions api_reflects_store_slash_refuted.
